@@ -406,7 +406,7 @@ class NpProxy(object):
             return self._np.std(arr)
         m = sym_sum(xs) / len(xs)
         var = sym_sum([(x - m) * (x - m) for x in xs]) / len(xs)
-        return SymReal(T.uf("pow", (lift(var), T.const(Fraction(1, 2)))))
+        return sym_pow(var, 0.5)
 
 
 class RandomStub(object):
@@ -436,6 +436,7 @@ class _Ctx(object):
 
 
 _current = [None]
+UNKNOWN_FEAS = [0]
 _feasible = [None]     # callable(list_of_bool_terms) -> True/False/None, installed by solve.py
 
 
@@ -460,7 +461,11 @@ def decide(cond):
         can_t = _feasible[0](pc + [base])
         can_f = _feasible[0](pc + [T.not_(base)])
         if can_t is None or can_f is None:
-            raise SolverUnknown("feasibility of %s" % T.show(base))
+            # over-approximate: an undecided branch is explored (sound for 'holds': only adds paths;
+            # violations need a model of the whole path condition anyway)
+            can_t = True if can_t is None else can_t
+            can_f = True if can_f is None else can_f
+            UNKNOWN_FEAS[0] += 1
         if can_t and can_f:
             val, fork = True, True
         elif can_t:
